@@ -1034,7 +1034,7 @@ CONFIG['C03']['rule'] += (' Stream V (1 case in 20): the exported readers runtim
 CONFIG['C01']['rule'] += ' Parameter values are read the way handlers read them: RouteParams.Get(name) where the name is unique in the route.'
 CONFIG['C05']['rule'] += ' Parameter values of unique names are read through denco.Params.Get(name) (Mux stream: all; Lookup stream: every other one).'
 # sub-checks: flows modelled under another property, run (and reported) under this one as well
-CONFIG['C04']['also'] = ['C03']   # typed parameters: what the handler gets for a number/integer text is C03's model (C04-m5)
+CONFIG['C04']['also'] = ['C03', 'C13']   # typed parameters: what the handler gets for a number/integer text is C03's model (C04-m5); the response's way to the caller's reader is C13's (C04-m8)
 CONFIG['C01']['also'] = ['C09']   # the same dispatch under concurrent requests (shared lookup state) is C09's stream R / -race tier (C01-m7)
 PENDING = {"C05DA"}   # C05DA is a sub-check of C05 ("also"), never claimed on its own
 NOT_APPLICABLE = {}
